@@ -8,6 +8,7 @@ O3: real Rejection / SMC runs on id-valued models through a scheduled client (sc
 """
 import hashlib
 import itertools
+import json
 import random
 
 import numpy as np
@@ -85,6 +86,20 @@ def run_sampler(sc, client):
         if hasattr(client, "probe"):
             client.probe = lambda: dict(nb=int(s.state["n_batches"]), obj=int(s._objective_n_batches) if s.objective else 0,
                                         np=int(s.batches.num_pending), nx=int(s.batches.next_index))
+        ab = sc.get("abandon")
+        if ab:
+            # the sampler was advanced by hand under ANOTHER objective and abandoned with batches outstanding; the next
+            # sample() call starts over: nothing of the abandoned objective may be used or left behind
+            if kind.startswith("rej"):
+                s.set_objective(ab["n"], n_sim=ab["n_sim"])
+            else:
+                s.set_objective(ab["n"], thresholds=[9.0, 8.0])
+            for _k in range(ab["iters"]):
+                if s.finished:
+                    break
+                s.iterate()
+            if hasattr(client, "events"):
+                del client.events[:]
         if kind == "rej-thr":
             res = s.sample(sc["n"], threshold=sc["thr"], bar=False)
         elif kind == "rej-q":
@@ -338,6 +353,39 @@ CHECK_DEADLOCK FALSE
             ctx.drifted(v["verdict"], sc, detail=tr["events"][max(0, v["l"] - 2)])
 
 
+def record_abandoned(sc):
+    from harness.sched_client import ScheduledClient
+    seq = seq_digest({k: v for k, v in sc.items() if k not in ("abandon", "family", "p_ready", "p_run", "sched_seed")})
+    cl = ScheduledClient(seed=sc["sched_seed"], p_ready=sc["p_ready"], p_run=sc["p_run"], cores=2)
+    try:
+        with time_limit(180):
+            res, _ = run_sampler(dict(sc), cl)
+        ev = dict(ev="end", id=-1, left=len(cl.tasks), digest=sample_digest(res, sc["kind"].startswith("smc")), nb=0, obj=0, np=0, nx=0)
+    except Exception as ex:
+        ev = dict(ev="end", id=-1, left=len(cl.tasks), digest="raised:" + type(ex).__name__, nb=-1, obj=-1, np=-1, nx=-1)
+    ev.update(bi=-1, ans=False)
+    return dict(maxpar=sc["maxpar"], seq=seq, kind=sc["kind"], events=[ev])
+
+
+def check_abandoned(ctx, scs=None):
+    """a sampler advanced by hand under another objective, abandoned with batches outstanding, then asked to sample():
+    judged on the end of the run only (result of the sequential fresh run, no task left) - Batches_Trace end event"""
+    if scs is None:
+        bases = [b for b in base_scenarios(ctx) if b["kind"] in ("rej-thr", "rej-q", "rej-nsim", "smc-thr")]
+        rnd = random.Random(ctx.seed + 33)
+        scs = []
+        for b in rnd.sample(bases, 6 if ctx.quick else 40):
+            for (p_ready, p_run) in ((0.0, 0.0), (0.3, 0.5)):
+                scs.append(dict(b, maxpar=3, family="abandoned", p_ready=p_ready, p_run=p_run, sched_seed=rnd.randint(0, 10 ** 6),
+                                abandon=dict(n=rnd.randint(1, 3), n_sim=rnd.randint(8, 20), iters=rnd.randint(1, 3))))
+    traces = [record_abandoned(sc) for sc in scs]
+    vs = ctx.validate("Batches_Trace", traces, name="abandoned")
+    for sc, tr, v in zip(scs, traces, vs):
+        ctx.case(("abandoned", sc["kind"], sc["bs"], sc["n"], json.dumps(sc["abandon"]), sc["p_ready"]), nontrivial=True)
+        if v["verdict"] != "ok":
+            ctx.fail(v["verdict"], sc, detail=tr["events"][-1])
+
+
 def run(ctx):
     ctx.rule = ("real Rejection (threshold | quantile | n_sim) and SMC (threshold lists | quantile lists) runs on id-valued models "
                 "through a scheduled client: every is_ready answer script of length L for max_parallel_batches in {2,3}, plus seeded "
@@ -362,6 +410,7 @@ def run(ctx):
                     label="simulate Batches MaxPar=%d rounds=%d K=%d" % (mp, r, k))
     check_clients(ctx)
     check_real_multiprocessing(ctx)
+    check_abandoned(ctx)
     scs = scenarios(ctx)
     traces = check_scenarios(ctx, scs)
     for i in (0, len(traces) // 2, len(traces) - 1):
@@ -369,4 +418,6 @@ def run(ctx):
 
 
 def replay(ctx, scenario):
+    if scenario.get("family") == "abandoned":
+        return check_abandoned(ctx, [scenario])
     check_scenarios(ctx, [scenario])
